@@ -223,3 +223,110 @@ def h_counter(vals: List[int], reinit: int) -> bool:
             if c.count() != total or c.n() != n:
                 return rt.fail("C09:counter", lambda: f"{vals}: count {c.count()} n {c.n()}")
     return True
+
+
+# ---------------------------------------------------------------------------------------------------------------
+# histories with queries in between: the reported values are a function of the observations since the last
+# initialisation ONLY (no state survives a query or an initialisation), and all-equal data of any length keeps
+# variance exactly 0 in IEEE arithmetic (so the "undefined -> NaN" rule applies).  Observations come from a grid of
+# doubles that are NOT exactly representable sums (0.1, 0.7, 1.1, 3.3, 1e9+0.1) through symbolic indices; the
+# operation kinds, the grid indices and the number of repetitions are symbolic.
+# ---------------------------------------------------------------------------------------------------------------
+HGRID = [0.1, 0.7, 1.1, 3.3, 1000000000.1]
+HL = rt.envint("VF_HL", 5)
+HEB = rt.envint("VF_EB", 0)
+NEQ = rt.envint("VF_NEQ", 16)
+QUERY = [("confidence_interval", 0.05), ("n", None), ("sum", None), ("min", None), ("max", None), ("mean", None), ("variance", True), ("variance", False),
+         ("stdev", False), ("skewness", True), ("kurtosis", False), ("excess_kurtosis", True),
+         ("confidence_interval", 0.5), ("confidence_interval", 0.05)]     # first and last query alike: a one-entry cache shows
+
+
+def _ask(t):
+    out = []
+    for g, a in QUERY:
+        try:
+            out.append(getattr(t, g)() if a is None else getattr(t, g)(a))
+        except Exception as e:      # noqa
+            out.append("raised " + type(e).__name__)
+    return out
+
+
+def _flat(v):
+    return list(v) if isinstance(v, tuple) else [v]
+
+
+def _same_list(a, b):
+    fa = [x for v in a for x in _flat(v)]
+    fb = [x for v in b for x in _flat(v)]
+    return len(fa) == len(fb) and all(_same(x, y) for x, y in zip(fa, fb))
+
+
+def h_history(kinds: List[int], vi: List[int], eb: bool) -> bool:
+    """
+    pre: len(kinds) == HL and len(vi) == HL
+    pre: all(0 <= k <= 2 for k in kinds)
+    pre: all(v == 0 for v in vi)
+    pre: eb == (HEB == 1)
+    post: _
+    """
+    # 0 register(grid value)   1 initialize()   2 query every getter
+    # (the observation values are fixed per position: hidden state shows for any values; the operation kinds are symbolic)
+    t = EventBasedTally("h") if eb else Tally("h")
+    data = []
+    for n in range(HL):
+        k = kinds[n]
+        if k == 0:
+            x = HGRID[(n * 2) % 5]          # concrete double (a symbolic index would make it a symbolic real)
+            t.register(x)
+            data.append(x)
+        elif k == 1:
+            t.initialize()
+            data = []
+        else:
+            _ask(t)
+    got = _ask(t)
+    fresh = EventBasedTally("f") if eb else Tally("f")     # the same observations on a brand-new object, never queried
+    for x in data:
+        fresh.register(x)
+    want = _ask(fresh)
+    if not _same_list(got, want):
+        return rt.fail("C09:reported-values-depend-on-earlier-history",
+                       lambda: f"ops {kinds} grid indices {vi}: after the history {got}; a new tally fed the observations since the "
+                               f"last initialisation {data} reports {want}")
+    for v in got:
+        if isinstance(v, str):
+            return rt.fail("C09:query-" + v.replace(" ", "-"), lambda: f"ops {kinds} {vi}")
+    return True
+
+
+def h_equal(vi: int, n: int, eb: bool) -> bool:
+    """
+    pre: 0 <= vi < 5
+    pre: 1 <= n <= NEQ
+    post: _
+    """
+    t = EventBasedTally("e") if eb else Tally("e")
+    x = HGRID[0]
+    for k in range(5):                      # explicit fork: x is a CONCRETE double on every path (IEEE arithmetic)
+        if vi == k:
+            x = HGRID[k]
+    i = 0
+    while i < n:
+        t.register(x)
+        i += 1
+    # "to floating-point accuracy": the values need not be exact, but the statistics that are UNDEFINED for zero
+    # variance must be reported as NaN, whatever rounding noise the accumulation produces
+    if abs(t.variance(True)) > 1e-12 * x * x:
+        return rt.fail("C09:all-equal-data-nonzero-variance", lambda: f"{n} x {x!r}: variance {t.variance(True)!r}")
+    for g in ("skewness", "kurtosis", "excess_kurtosis"):
+        for b in (True, False):
+            v = getattr(t, g)(b)
+            if v == v:
+                return rt.fail("C09:all-equal-data-" + g + "-not-NaN", lambda: f"{n} x {x!r}: {g}({b}) = {v!r}")
+    if not close(t.mean(), x) or t.min() != x or t.max() != x:
+        return rt.fail("C09:all-equal-data-mean-min-max", lambda: f"{n} x {x!r}: mean {t.mean()!r} min {t.min()!r} max {t.max()!r}")
+    if n >= 2:
+        lo, hi = t.confidence_interval(0.05)
+        if not (lo <= hi and close(lo, x) and close(hi, x)):
+            return rt.fail("C09:all-equal-data-confidence-interval", lambda: f"{n} x {x!r}: ({lo!r}, {hi!r})")
+    return True
